@@ -7,7 +7,10 @@ from sim.pdfix import IN_OFF, OUT_OFF, PDTerminal, ebpf_terminal, install_cycle_
 FMTS = ["B", "H", "I", "Q", "b", "h", "i", "q"]
 
 
-def gen_specs(tape, label="grp", max_terms=5, max_sz=12, allow_direct=True):
+def gen_specs(tape, label="grp", max_terms=5, max_sz=12, allow_direct=True, allow_aero=False):
+    """allow_aero: some terminals use the Aerotech-style allocator (AerotechBase): inputs
+    through the FMMU over `decl_in` bytes plus a one-byte FPRD, outputs through an FPWR of
+    `decl_out` bytes plus - if that is less than the sync manager - a one-byte FPWR"""
     n = 1 + tape.draw(f"{label}/nterm", max_terms)
     specs = []
     for k in range(n):
@@ -15,9 +18,27 @@ def gen_specs(tape, label="grp", max_terms=5, max_sz=12, allow_direct=True):
         out_sz = tape.draw(f"{label}/out_sz", max_sz + 1)
         if in_sz == 0 and out_sz == 0:
             in_sz = 1 + tape.draw(f"{label}/in_sz2", max_sz)
-        specs.append(dict(in_sz=in_sz, out_sz=out_sz, n_fmmu=2 + tape.draw(f"{label}/nfmmu", 3),
-                          use_fmmu=not (allow_direct and tape.chance(f"{label}/direct", 30))))
+        sp = dict(in_sz=in_sz, out_sz=out_sz, n_fmmu=2 + tape.draw(f"{label}/nfmmu", 3),
+                  use_fmmu=not (allow_direct and tape.chance(f"{label}/direct", 30)))
+        if allow_aero and tape.chance(f"{label}/aerotech", 25):
+            sp["aero"] = True
+            sp["use_fmmu"] = True
+            sp["decl_in"] = max(1, in_sz - tape.draw(f"{label}/aero-in-less", 3)) if in_sz else 0
+            sp["decl_out"] = max(1, out_sz - tape.draw(f"{label}/aero-out-less", 3)) if out_sz else 0
+        specs.append(sp)
     return specs
+
+
+def out_via_fmmu(sp):
+    """are the terminal's outputs transported by the group's LWR datagram?"""
+    return sp["use_fmmu"] and not sp.get("aero")
+
+
+def link_size(sp, sm):
+    """number of bytes of the terminal's area a process variable may lie in"""
+    if sp.get("aero"):
+        return sp["decl_in"] if sm == "in" else sp["decl_out"]
+    return sp[f"{sm}_sz"]
 
 
 def build(env, ec, specs):
@@ -29,7 +50,12 @@ def build(env, ec, specs):
         st.refresh_inputs()
         env.bus.add_terminal(st)
         sims.append(st)
-        terms.append(ebpf_terminal(ec, st, sp["use_fmmu"]))
+        cls = None
+        if sp.get("aero"):
+            from ebpfcat.terminals import AerotechBase
+            cls = type("Aero", (AerotechBase,), dict(in_size=sp["decl_in"],
+                                                     out_size=sp["decl_out"]))
+        terms.append(ebpf_terminal(ec, st, sp["use_fmmu"], cls))
     install_cycle_hook(env.bus)
     return sims, terms
 
@@ -39,7 +65,7 @@ def gen_links(tape, specs, label="grp", max_vars=4):
     output variables never overlap each other (inputs may)"""
     links = []
     for k, sp in enumerate(specs):
-        for sm, sz in (("in", sp["in_sz"]), ("out", sp["out_sz"])):
+        for sm, sz in (("in", link_size(sp, "in")), ("out", link_size(sp, "out"))):
             if not sz:
                 continue
             taken_bytes, bit_bytes, taken_bits = set(), set(), set()
